@@ -1,0 +1,102 @@
+//go:build verif
+
+package cty
+
+// Verification hook (build tag "verif" only): exposes a read-only view of a
+// value's internal representation so that an external checker can compare it
+// with the value's type. It adds no behaviour and is not compiled into
+// normal builds.
+
+import (
+	"fmt"
+	"math/big"
+	"sort"
+
+	"github.com/zclconf/go-cty/cty/set"
+)
+
+// VerifNode describes the raw payload found at one position of a value.
+type VerifNode struct {
+	GoKind      string      // bool, bigfloat, string, slice, map, set, nil, unknown, capsule, other:<type>
+	MarkDepth   int         // number of nested marker wrappers at this position
+	RefKind     string      // for unknown payloads: "", nullable, string, number, collection
+	Str         string      // raw string payload
+	Keys        []string    // raw map keys, sorted
+	Children    []VerifNode // slice order / sorted key order / set iteration order
+	SetElemType *Type       // element type recorded in a set's rules
+	BucketLens  []int       // for sets: length of each hash bucket
+	BucketCaps  []int       // for sets: capacity of each hash bucket
+}
+
+// VerifInspect returns the internal view of v.
+func VerifInspect(v Value) VerifNode {
+	return verifInspectRaw(v.v)
+}
+
+func verifInspectRaw(raw interface{}) VerifNode {
+	var n VerifNode
+	for {
+		m, ok := raw.(marker)
+		if !ok {
+			break
+		}
+		n.MarkDepth++
+		raw = m.realV
+	}
+	switch p := raw.(type) {
+	case nil:
+		n.GoKind = "nil"
+	case bool:
+		n.GoKind = "bool"
+	case *big.Float:
+		n.GoKind = "bigfloat"
+	case string:
+		n.GoKind = "string"
+		n.Str = p
+	case []interface{}:
+		n.GoKind = "slice"
+		for _, e := range p {
+			n.Children = append(n.Children, verifInspectRaw(e))
+		}
+	case map[string]interface{}:
+		n.GoKind = "map"
+		for k := range p {
+			n.Keys = append(n.Keys, k)
+		}
+		sort.Strings(n.Keys)
+		for _, k := range n.Keys {
+			n.Children = append(n.Children, verifInspectRaw(p[k]))
+		}
+	case set.Set[interface{}]:
+		n.GoKind = "set"
+		if r, ok := p.Rules().(setRules); ok {
+			t := r.Type
+			n.SetElemType = &t
+		}
+		for _, e := range p.Values() {
+			n.Children = append(n.Children, verifInspectRaw(e))
+		}
+		n.BucketLens, n.BucketCaps = set.VerifBuckets(p)
+	case *unknownType:
+		n.GoKind = "unknown"
+		switch p.refinement.(type) {
+		case nil:
+			n.RefKind = ""
+		case *refinementNullable:
+			n.RefKind = "nullable"
+		case *refinementString:
+			n.RefKind = "string"
+		case *refinementNumber:
+			n.RefKind = "number"
+		case *refinementCollection:
+			n.RefKind = "collection"
+		default:
+			n.RefKind = fmt.Sprintf("other:%T", p.refinement)
+		}
+	default:
+		if _, isCapsule := raw.(interface{}); isCapsule && raw != nil {
+			n.GoKind = fmt.Sprintf("other:%T", raw)
+		}
+	}
+	return n
+}
